@@ -114,6 +114,13 @@ CLAIMED = {
          "for every number of axes. All 30 public functions with out/output are exercised on the fresh build with valid and invalid "
          "buffers (identity of the returned object, equality with the call without out, rejection kind, untouched rejected buffers)",
          "Rocq proof + Python-ast translator + behavioural check of every out= wrapper"),
+ "C10": ("proof", "partial: the index arithmetic is proved, the runtime is observed. Coq theorems: the re-translated fix_offset returns an "
+         "index inside [0,len) or the explicit flag in every mode; every position a filter kernel dereferences lies inside the array "
+         "(any dimension); the convolve1d raw-pointer fast path reads in bounds and writes every column under the wrapper's guard; "
+         "the unchecked flat neighbour indices of cwatershed (margin lower bounds) are in bounds; at_flat addresses in-range "
+         "positions. Runtime half (support): every registry function on generated valid inputs, 1-4 D, sizes to 40, neighbourhoods "
+         "larger than the image, random layouts, in isolated workers on an AddressSanitizer build of the current tree",
+         "Rocq proof (index arithmetic) + translator + AddressSanitizer runs of generated inputs"),
 }
 NOT_YET = "check not built yet in this round (see DESIGN.md section 8 for the plan)"
 ALL = ["C%02d" % i for i in range(1, 21)]
